@@ -41,7 +41,9 @@ ASSUMPTIONS = [
 ]
 DECIDING = ["MFG.matrix", "sym-unitary", "sym-grouplaw", "fixed-relation", "num-grouplaw", "table-size"]
 EXHAUSTIVE = {"sym": "all (gate, obligation) pairs over the 27-entry gate table on symbolic real parameters",
-              "fixed": "the fixed relations named in the property", "grid": "every gate at the special-angle grid"}
+              "fixed": "the fixed relations named in the property", "grid": "every gate at the special-angle grid",
+              "group_int": "the additive law a,b -> a+b for every one-parameter group gate at all integer angle pairs "
+                           "in -3..3 (given alternately as Python int and float)"}
 BUDGET = {"quick": (4, 40, 400), "thorough": (16, 150, 4000)}
 CASE_TIMEOUT = {"quick": 25, "thorough": 60}
 
@@ -51,7 +53,7 @@ GRID = [0, math.pi / 4, -math.pi / 4, math.pi / 2, -math.pi / 2, math.pi, -math.
 
 
 def classes(tier):
-    return ["sym", "fixed", "grid", "num_random", "num_group"]
+    return ["sym", "fixed", "grid", "num_random", "num_group", "group_int"]
 
 
 # ------------------------------------------------------------------ CAS pipeline
@@ -308,5 +310,23 @@ def run_case(ctx):
         d = L.maxdiff(m(a) @ m(b), m(a + b))
         ctx.check("num-grouplaw", d <= 1e-9, f"{name}({a})*{name}({b}) differs from {name}({a + b}) by {d}")
         ctx.check("num-zero-angle", L.maxdiff(m(0), np.eye(2 ** tab[name]['nq'])) <= 1e-12, f"{name}(0) is not the identity")
+        return
+    if cls == "group_int":
+        # small integers are where hashing / caching / modular-reduction slips collide (hash(-1) == hash(-2),
+        # 1 == 1.0 == True as dictionary keys); each gate is evaluated at a, b and a+b within one process
+        ints = list(range(-3, 4))
+        combos = [(n, a, b) for n in GROUP_GATES for a in ints for b in ints]
+        if ctx.index >= len(combos):
+            raise Exhausted()
+        name, a, b = combos[ctx.index]
+        as_float = ctx.index % 2 == 1
+        pa, pb, pab = (float(a), float(b), float(a + b)) if as_float else (a, b, a + b)
+        ctx.describe(f"group-int {name} a={pa!r} b={pb!r}", a != 0 and b != 0)
+        m = lambda p: GC.to_np(_make(name, (p,)).matrix)
+        d = L.maxdiff(m(pa) @ m(pb), m(pab))
+        ctx.check("num-grouplaw", d <= 1e-9, f"{name}({pa!r})*{name}({pb!r}) differs from {name}({pab!r}) by {d}")
+        # the same angle given as int and as float denotes the same matrix
+        d2 = L.maxdiff(m(int(a)), m(float(a)))
+        ctx.check("num-int-float-agree", d2 <= 1e-12, f"{name}({int(a)!r}) differs from {name}({float(a)!r}) by {d2}")
         return
     raise ValueError(cls)
